@@ -36,7 +36,7 @@ Record flags := {
   f_forward : bool;        (* MCIntegrator.options setter hands the options to the wrapped
                               integrator (true since /repo bdf00f0) *)
   f_rebind : bool;         (* `solver.options = {...}` with solver-level keys only re-binds
-                              the integrator to the new options object *)
+                              the integrator to the new options object (true since /repo c83a966) *)
   f_nm_args_first : bool }. (* NonMarkovianMCSolver.run applies args before pre-computing
                               the martingale *)
 
